@@ -27,6 +27,17 @@ import (
 // is itself an enumerated sequence), keyed by record kind, differing fields, the event
 // kind that introduced it and the partition of the back ends.
 //
+// Reopen comparison: after a selected subset of the sequences (c22ReopenClass: every
+// sequence of length <= 2, every sequence whose events all touch one store record, and the
+// sequences of length 3 in which a record is touched more than once) every hook is
+// stopped, a NEW hook instance is opened on the same store (bolt file, badger directory,
+// pebble file system, redis server) and the five Stored*() results of the four new
+// instances are compared in the same way; a difference that was not there before reopening
+// is reported as c22:reopen:<kind>:<fields>:<partition>. A repeated write symbol writes
+// distinguishable content (see c22Apply), e.g. qpub|a|1 qpub|a|1 = PUBLISH then PUBREL
+// under one in-flight key, so stale versions that resurface (log replay, flush,
+// compaction) or overwrites that are lost are visible.
+//
 // Symbols (client ids {a, a:b} x filters/topics {c, b:c} x packet ids {1, 11}):
 //   est:<id> disc1:<id> (expire) disc0:<id> (keep) sub:<id>:<f> unsub:<id>:<f>
 //   rset:<t> rclr:<t> qpub:<id>:<pid> qcomp:<id>:<pid> qdrop:<id>:<pid>
@@ -83,17 +94,19 @@ func c22Client(id string) *mqtt.Client {
 }
 
 type c22Env struct {
-	stores []*stStore
-	hooks  []mqtt.Hook
-	cl     map[string]*mqtt.Client
-	used   int
-	spent  [4]time.Duration // per back end: apply + read + wipe
+	stores  []*stStore
+	hooks   []mqtt.Hook
+	cl      map[string]*mqtt.Client
+	used    int
+	spent   [4]time.Duration // per back end: apply + read + wipe
+	respent [4]time.Duration // per back end: stop + open of the reopen phase
 }
 
 func c22NewEnv() *c22Env {
 	e := &c22Env{cl: map[string]*mqtt.Client{}}
 	for _, k := range stBackends {
 		s := stNewStore(k)
+		s.Tiny = true
 		e.stores = append(e.stores, s)
 		e.hooks = append(e.hooks, s.Open())
 	}
@@ -110,6 +123,16 @@ func (e *c22Env) close() {
 	}
 }
 
+// reopen stops the hook of back end i and opens a NEW hook instance on the same store
+// (same bolt file / badger directory / pebble file system / redis server), as a broker
+// restart does. Pebble's Stop reports its never-closed iterators (see stStop).
+func (e *c22Env) reopen(i int) {
+	t0 := time.Now()
+	stStop(e.hooks[i])
+	e.hooks[i] = e.stores[i].Open()
+	e.respent[i] += time.Since(t0)
+}
+
 func (e *c22Env) reset() error {
 	for i, h := range e.hooks {
 		t0 := time.Now()
@@ -124,7 +147,13 @@ func (e *c22Env) reset() error {
 	return nil
 }
 
-func c22Apply(h mqtt.Hook, cl map[string]*mqtt.Client, sym string) {
+// c22Apply applies one event to one hook. n = number of earlier occurrences of the same
+// symbol in the sequence: the n-th repetition of a WRITE (sub, rset, qpub) carries other
+// content than the first (subscription identifier 3+n; retained payload / content type
+// suffixed with n; in-flight: the first write is the PUBLISH, every later write of the same
+// client:packet-id key is the PUBREL of the QoS 2 outbound flow with Sent advanced by n),
+// so that the versions of a record written several times are distinguishable when read back.
+func c22Apply(h mqtt.Hook, cl map[string]*mqtt.Client, sym string, n int) {
 	f := strings.Split(sym, "|")
 	switch f[0] {
 	case "est":
@@ -138,7 +167,7 @@ func c22Apply(h mqtt.Hook, cl map[string]*mqtt.Client, sym string) {
 	case "will":
 		h.OnWillSent(cl[f[1]], packets.Packet{})
 	case "sub":
-		h.OnSubscribed(cl[f[1]], packets.Packet{Filters: packets.Subscriptions{{Filter: f[2], Qos: 2, Identifier: 3, RetainHandling: 1, RetainAsPublished: true, NoLocal: true}}}, []byte{1})
+		h.OnSubscribed(cl[f[1]], packets.Packet{Filters: packets.Subscriptions{{Filter: f[2], Qos: 2, Identifier: 3 + n, RetainHandling: 1, RetainAsPublished: true, NoLocal: true}}}, []byte{1})
 	case "unsub":
 		h.OnUnsubscribed(cl[f[1]], packets.Packet{Filters: packets.Subscriptions{{Filter: f[2]}}})
 	case "rset", "rclr":
@@ -149,6 +178,9 @@ func c22Apply(h mqtt.Hook, cl map[string]*mqtt.Client, sym string) {
 		if f[0] == "rclr" {
 			r = -1
 			pk.Payload = nil
+		} else if n > 0 {
+			pk.Payload = []byte(fmt.Sprintf("p-%s-%d", f[1], n))
+			pk.Properties.ContentType = fmt.Sprintf("ct%d", n)
 		}
 		h.OnRetainMessage(cl["a"], pk, r)
 	case "rexp":
@@ -160,7 +192,10 @@ func c22Apply(h mqtt.Hook, cl map[string]*mqtt.Client, sym string) {
 			Properties: packets.Properties{MessageExpiryInterval: 30, SubscriptionIdentifier: []int{3}}}
 		switch f[0] {
 		case "qpub":
-			h.OnQosPublish(cl[f[1]], pk, 1001, 0)
+			if n > 0 {
+				pk = packets.Packet{FixedHeader: packets.FixedHeader{Type: packets.Pubrel, Qos: 1}, PacketID: pid, Created: 1000 + int64(n), Origin: "p"}
+			}
+			h.OnQosPublish(cl[f[1]], pk, 1001+int64(n), 0)
 		case "qcomp":
 			h.OnQosComplete(cl[f[1]], pk)
 		default:
@@ -239,14 +274,30 @@ func c22Compare(d []stDump) map[string]c22Sig {
 }
 
 // c22Run applies seq to the four hooks of env (assumed empty) and returns the violations
-// introduced by the last event, the final dump of each back end and a trace.
-func c22Run(e *c22Env, seq []string, trace bool) (viol []explore.Violation, final []stDump, tr []string) {
+// introduced by the last event, the final dump of each back end and a trace. With reopen,
+// every hook is then stopped, a NEW hook instance is opened on the same store and the five
+// Stored* results of the new instances are compared as well: a difference between the back
+// ends that was not there (in the same form) before reopening is reported under c22:reopen:.
+func c22Run(e *c22Env, seq []string, trace, reopen bool) (viol []explore.Violation, final []stDump, tr []string) {
 	prev := map[string]c22Sig{}
+	dumpLines := func(d []stDump) string {
+		var lines []string
+		for i := range d {
+			lines = append(lines, stBackends[i]+": "+d[i].String())
+		}
+		return strings.Join(lines, "\n")
+	}
 	for step, sym := range seq {
+		n := 0
+		for _, x := range seq[:step] {
+			if x == sym {
+				n++
+			}
+		}
 		d := make([]stDump, len(e.hooks))
 		for i, h := range e.hooks {
 			t0 := time.Now()
-			c22Apply(h, e.cl, sym)
+			c22Apply(h, e.cl, sym, n)
 			if step >= len(seq)-2 { // only the last event's effect is judged (against the state before it)
 				d[i] = stRead(h)
 			}
@@ -272,33 +323,113 @@ func c22Run(e *c22Env, seq []string, trace bool) (viol []explore.Violation, fina
 				if i := strings.IndexByte(sym, '|'); i >= 0 {
 					ek = sym[:i]
 				}
-				var lines []string
-				for i := range d {
-					lines = append(lines, stBackends[i]+": "+d[i].String())
-				}
 				viol = append(viol, explore.Violation{
 					Key:    fmt.Sprintf("c22:%s:%s:after-%s:%s", kind, s.fields, ek, s.partition),
-					Msg:    fmt.Sprintf("event sequence %v: stored %s differ between back ends (%s) in %s after the last event\n%s", seq, kind, s.partition, s.fields, strings.Join(lines, "\n")),
+					Msg:    fmt.Sprintf("event sequence %v: stored %s differ between back ends (%s) in %s after the last event\n%s", seq, kind, s.partition, s.fields, dumpLines(d)),
 					Replay: map[string]any{"seq": seq},
 				})
 			}
 		}
 		prev = cur
 	}
+	if !reopen || len(seq) == 0 {
+		return
+	}
+	// ---- reopen: the same stores read back through new hook instances
+	d := make([]stDump, len(e.hooks))
+	var changed []string
+	for i := range e.hooks {
+		e.reopen(i)
+		t0 := time.Now()
+		d[i] = stRead(e.hooks[i])
+		e.spent[i] += time.Since(t0)
+		if d[i].String() != final[i].String() {
+			changed = append(changed, stBackends[i])
+		}
+	}
+	if trace {
+		tr = append(tr, "--- every hook stopped, new hook instances opened on the same stores")
+		for i := range d {
+			tr = append(tr, fmt.Sprintf("%-7s %s", stBackends[i], d[i]))
+		}
+	}
+	for kind, s := range c22Compare(d) {
+		if p, ok := prev[kind]; ok && p == s {
+			continue // the same difference was there before reopening (reported by the sequence that introduced it)
+		}
+		viol = append(viol, explore.Violation{
+			Key: fmt.Sprintf("c22:reopen:%s:%s:%s", kind, s.fields, s.partition),
+			Msg: fmt.Sprintf("event sequence %v, then every hook stopped and a new hook instance opened on the same store: stored %s differ between back ends (%s) in %s; back ends whose content changed by reopening: %v\nbefore reopening:\n%s\nafter reopening:\n%s",
+				seq, kind, s.partition, s.fields, changed, dumpLines(final), dumpLines(d)),
+			Replay: map[string]any{"seq": seq, "reopen": true},
+		})
+	}
+	final = d
 	return
+}
+
+// c22Key is the store record an event symbol touches (back-end independent spelling).
+func c22Key(sym string) string {
+	f := strings.Split(sym, "|")
+	switch f[0] {
+	case "est", "disc1", "disc0", "cexp", "will":
+		return "client/" + f[1]
+	case "sub", "unsub":
+		return "sub/" + f[1] + ":" + f[2] // as the hooks spell it: ("a:b","c") and ("a","b:c") are one record
+	case "rset", "rclr", "rexp":
+		return "retained/" + f[1]
+	case "qpub", "qcomp", "qdrop":
+		return "inflight/" + f[1] + ":" + f[2]
+	}
+	return "sysinfo"
+}
+
+// c22ReopenClass says whether, and how early, the stores are reopened after seq:
+//
+//	0 (core):     every sequence of length <= 2 (all pairs of records, among them the keys that
+//	              are prefixes of one another) and every longer sequence whose events all touch
+//	              ONE store record (write-write-delete, write-delete-write, ...: what a reopened
+//	              store shows depends on the whole write history of the key)
+//	1 (extended): the other sequences of length 3 in which some record is touched more than
+//	              once and all three events concern the same kind of record
+//	2 (thorough): the remaining sequences of length 3 in which some record is touched more than once
+//	-1:           not reopened
+func c22ReopenClass(seq []string) int {
+	if len(seq) <= 2 {
+		return 0
+	}
+	seen := map[string]bool{}
+	kinds := map[string]bool{}
+	collide := false
+	for _, x := range seq {
+		k := c22Key(x)
+		collide = collide || seen[k]
+		seen[k] = true
+		kinds[k[:strings.IndexByte(k+"/", '/')]] = true
+	}
+	switch {
+	case len(seen) == 1:
+		return 0
+	case len(seq) == 3 && collide && len(kinds) == 1:
+		return 1
+	case len(seq) == 3 && collide:
+		return 2
+	}
+	return -1
 }
 
 func init() {
 	explore.RegisterReplayer("C22", func(raw json.RawMessage) (bool, []string) {
 		var r struct {
-			Seq []string `json:"seq"`
+			Seq    []string `json:"seq"`
+			Reopen bool     `json:"reopen"`
 		}
 		if json.Unmarshal(raw, &r) != nil {
 			return false, []string{"bad replay data"}
 		}
 		e := c22NewEnv()
 		defer e.close()
-		v, _, tr := c22Run(e, r.Seq, true)
+		v, _, tr := c22Run(e, r.Seq, true, r.Reopen)
 		for _, x := range v {
 			tr = append(tr, "violation key="+x.Key)
 		}
@@ -345,25 +476,117 @@ func init() {
 		for i := 0; i < workers; i++ {
 			pool <- c22NewEnv()
 		}
+		// Work list. Phases, in this order (so that an early deadline cuts the least important part):
+		//   P0 reopen class 0 (live comparison + reopen comparison)
+		//   P1 every other sequence of length <= 3, live comparison only
+		//   P2 reopen class 1 (thorough: and 2), run again with the reopen comparison (live differences were reported in P1)
+		//   P3 (thorough) the other sequences of length 4, live comparison only
+		type work struct {
+			idx    int
+			reopen bool
+			second bool // the sequence was already judged live in an earlier phase
+		}
+		var phases [4][]work
+		for i := 0; i < total; i++ {
+			seq := decode(i)
+			cl := c22ReopenClass(seq)
+			switch {
+			case cl == 0:
+				phases[0] = append(phases[0], work{i, true, false})
+			case len(seq) <= 3:
+				phases[1] = append(phases[1], work{i, false, false})
+				if cl == 1 || (cl == 2 && !c.Quick()) {
+					phases[2] = append(phases[2], work{i, true, true})
+				}
+			default:
+				phases[3] = append(phases[3], work{i, false, false})
+			}
+		}
+		var todo []work
+		for _, ph := range phases {
+			todo = append(todo, ph...)
+		}
 		var mu sync.Mutex
 		distinct := map[string]bool{}
-		var evals, steps, internal int64
-		done := explore.ParallelRange(total, workers, c.Expired, func(i int) {
-			seq := decode(i)
+		var evals, steps, internal, reopened, collisions int64
+		done := explore.ParallelRange(len(todo), workers, c.Expired, func(wi int) {
+			wk := todo[wi]
+			seq := decode(wk.idx)
 			e := <-pool
 			if e.used >= 4000 { // bound what pebble's never-closed iterators pin
-				sp := e.spent
+				sp, rsp := e.spent, e.respent
 				e.close()
 				e = c22NewEnv()
-				e.spent = sp
+				e.spent, e.respent = sp, rsp
 			}
 			e.used++
-			v, final, _ := c22Run(e, seq, false)
+			re := wk.reopen
+			v, final, _ := c22Run(e, seq, false, re)
 			err := e.reset()
 			pool <- e
+			// a difference seen after reopening the pooled (wiped and reused) stores is
+			// confirmed on fresh stores, which is also what the replay uses
+			var cand []string
+			for _, x := range v {
+				if strings.HasPrefix(x.Key, "c22:reopen:") {
+					cand = append(cand, x.Key)
+				}
+			}
+			if wk.second { // live differences of this sequence were reported when it was run without reopening
+				var keep []explore.Violation
+				for _, x := range v {
+					if strings.HasPrefix(x.Key, "c22:reopen:") {
+						keep = append(keep, x)
+					}
+				}
+				v = keep
+			}
+			if len(cand) > 0 {
+				fe := c22NewEnv()
+				v2, _, _ := c22Run(fe, seq, false, true)
+				fe.close()
+				var conf []string
+				for _, x := range v2 {
+					if strings.HasPrefix(x.Key, "c22:reopen:") {
+						conf = append(conf, x.Key)
+					}
+				}
+				sort.Strings(cand)
+				sort.Strings(conf)
+				if wk.second {
+					var keep []explore.Violation
+					for _, x := range v2 {
+						if strings.HasPrefix(x.Key, "c22:reopen:") {
+							keep = append(keep, x)
+						}
+					}
+					v2 = keep
+				}
+				if fmt.Sprint(cand) != fmt.Sprint(conf) {
+					v2 = append(v2, explore.Violation{Key: "internal:c22-reopen-differs-on-fresh-stores", Msg: fmt.Sprintf("sequence %v: reused stores gave %v, fresh stores %v", seq, cand, conf), Replay: map[string]any{"seq": seq, "reopen": true}})
+				}
+				v = v2
+			}
 			mu.Lock()
-			evals++
+			if !wk.second {
+				evals++
+			}
 			steps += int64(len(seq))
+			if re {
+				reopened++
+				twice := map[string]int{}
+				for _, x := range seq {
+					if strings.HasPrefix(x, "qpub|") {
+						twice[x]++
+					}
+				}
+				for _, n := range twice {
+					if n > 1 {
+						collisions++ // the same in-flight key written more than once, then reopened
+						break
+					}
+				}
+			}
 			if len(final) > 0 && !final[0].Empty() {
 				distinct[final[0].String()] = true
 			}
@@ -378,16 +601,23 @@ func init() {
 				c.Rep.Add(explore.Violation{Key: "internal:c22-reset-failed", Msg: err.Error(), Replay: map[string]any{"seq": seq}})
 			}
 		})
-		var spent [4]time.Duration
+		var spent, respent [4]time.Duration
 		for i := 0; i < workers; i++ {
 			e := <-pool
 			for j := range spent {
 				spent[j] += e.spent[j]
+				respent[j] += e.respent[j]
 			}
 			e.close()
 		}
 		for j, k := range stBackends {
 			c.Rep.Set("cpu_ms_"+k, spent[j].Milliseconds())
+			c.Rep.Set("cpu_ms_reopen_"+k, respent[j].Milliseconds())
+		}
+		c.Rep.Count("sequences_followed_by_reopen_of_all_stores", reopened)
+		c.Rep.Count("reopened_with_inflight_key_written_more_than_once", collisions)
+		if reopened > 0 && collisions == 0 && done {
+			c.Rep.Add(explore.Violation{Key: "internal:c22-vacuous-reopen", Msg: "no reopened sequence wrote an in-flight key twice"})
 		}
 		c.Rep.Count("evaluations", evals)
 		c.Rep.Count("events_applied_per_backend", steps)
@@ -396,14 +626,17 @@ func init() {
 		c.Rep.Set("rule", "distinct non-empty normalised store contents (five Stored* results as returned by bolt) reached at the end of an enumerated event sequence")
 		c.Rep.Set("alphabet", syms)
 		c.Rep.Set("max_sequence_length", maxLen)
+		c.Rep.Set("reopen_phases", map[string]int{"P0_core_reopened": len(phases[0]), "P1_live_len_le_3": len(phases[1]), "P2_extended_reopened": len(phases[2]), "P3_live_len_4": len(phases[3])})
 		c.Rep.Sample(map[string]any{"sequence": decode(0)})
 		c.Rep.Sample(map[string]any{"sequence": decode(total / 2)})
 		c.Rep.Sample(map[string]any{"sequence": decode(total - 1)})
-		c.Rep.Assumption("events are applied directly to the four hook objects with fixed *mqtt.Client objects (one per id); reads go through the same hook instance that was written (restart fidelity is C20)")
+		c.Rep.Assumption("events are applied directly to the four hook objects with fixed *mqtt.Client objects (one per id); reads go through the same hook instance that was written and, for the reopened sequences, additionally through a NEW hook instance opened on the same store after the old one was stopped (hook level only; restart fidelity of the broker is C20)")
+		c.Rep.Assumption("the n-th repetition of a write symbol in a sequence writes distinguishable content (subscription identifier, retained payload/content type, in-flight PUBLISH then PUBREL with later Sent), the same for all four back ends")
+		c.Rep.Assumption("reopen comparisons run on pooled stores (wiped between sequences); a difference found there is re-run on fresh stores and reported from that run")
 		c.Rep.Assumption("the storage-key field ID is compared modulo each back end's own key prefix (redis uses none); nil and empty lists are equal; order is ignored")
-		c.Rep.Assumption("bolt runs with NoSync, badger with small tables and SyncWrites=false, pebble on its in-memory FS, redis against an in-process miniredis server")
+		c.Rep.Assumption("bolt runs with NoSync, badger with its smallest buffers (256 KiB memtable/base table) and SyncWrites=false, pebble on its in-memory FS, redis against an in-process miniredis server")
 		if !done {
-			c.Rep.Capped(fmt.Sprintf("deadline reached after %d of %d sequences (enumeration order: by length, then lexicographic)", evals, total))
+			c.Rep.Capped(fmt.Sprintf("deadline reached after %d of %d sequences, %d of %d reopen runs (order: reopen core, live length <= 3, reopen extended, live length 4; each lexicographic)", evals, total, reopened, len(phases[0])+len(phases[2])))
 		}
 	})
 }
